@@ -121,7 +121,7 @@ class ParseCtx:
             raise AnalysisError("only %d operator literals found in _parse's dispatch" % len(self.domain))
         self.dom = self.cfg.dominators()
         self.appends = [(n, c) for n, c in self.cfg.find(lambda x: isinstance(x, ast.Call) and isinstance(x.func, ast.Attribute) and x.func.attr == "append" and len(x.args) == 1 and (q.dotted(x.func.value) or "").endswith(".chunks"))]
-        if len(self.appends) < 6:
+        if len(self.appends) < 4:
             raise AnalysisError("only %d chunk append sites in _parse" % len(self.appends))
         self.node_classes = node_classes(ck)
         self._reach = {}
@@ -162,6 +162,41 @@ class ParseCtx:
                     return dl[v]
                 return self.resolve_under(v, e.args[1], at) if len(e.args) > 1 else ast.Constant(value=None)
         return e
+
+    def text_helpers(self):
+        """Module-level helpers called from _parse that build a _Text node from their parameters:
+        {helper name: (FuncInfo, [index of the helper parameter feeding each _Text.__init__ parameter])}."""
+        if hasattr(self, "_th"):
+            return self._th
+        out = {}
+        m = self.fi.module
+        for c in q.calls(self.fi.node):
+            if isinstance(c.func, ast.Name) and c.func.id in m.funcs and c.func.id != self.fi.name and c.func.id not in out:
+                h = m.funcs[c.func.id]
+                tcalls = [x for x in q.calls(h.node) if q.is_call(x, "_Text")]
+                if not tcalls:
+                    continue
+                hp = h.params()
+                if len(tcalls) != 1 or not all(isinstance(a, ast.Name) and a.id in hp for a in tcalls[0].args) or tcalls[0].keywords:
+                    raise AnalysisError("%s builds a _Text node in a way that is not understood: %s" % (h.qualname, q.unparse(tcalls[0])))
+                out[c.func.id] = (h, [hp.index(a.id) for a in tcalls[0].args])
+        self._th = out
+        return out
+
+    def text_sites(self):
+        """[(call node inside _parse, [value, line, whitespace] argument expressions in _Text.__init__ order)] for every
+        place where _parse turns literal text into a node -- directly or through a helper (function splitting)."""
+        out = []
+        th = self.text_helpers()
+        for c in q.calls(self.fi.node):
+            if q.is_call(c, "_Text"):
+                out.append((c, list(c.args), c))
+            elif isinstance(c.func, ast.Name) and c.func.id in th:
+                h, idxs = th[c.func.id]
+                if c.keywords or any(i >= len(c.args) for i in idxs):
+                    raise AnalysisError("_parse: call of %s not understood: %s" % (h.qualname, q.unparse(c)))
+                out.append((c, [c.args[i] for i in idxs], c))
+        return out
 
     def ctor_calls(self, v):
         """(cfg node, constructor call, class name) for node constructions reached under operator v."""
@@ -685,8 +720,8 @@ def rule_text_fidelity(ck, px):
     if not ws_param:
         raise AnalysisError("_Text.__init__ has no whitespace parameter")
     idx = tparams.index(ws_param[0])
-    sites = [c for c in q.calls(px.fi.node) if isinstance(c.func, ast.Name) and c.func.id == "_Text"]
-    ck.floor(rid, len(sites), 3, "_Text constructions in _parse")
+    sites = px.text_sites()
+    ck.floor(rid, len(sites), 3, "literal-text node constructions in _parse")
     mode_path = "%s.%s" % (px.reader, ws_attr)
     cfg_ = px.cfg
 
@@ -700,8 +735,8 @@ def rule_text_fidelity(ck, px):
             return q.dotted(getattr(n_.ast, "value", None)) not in _synced
         return any(isinstance(c_.func, ast.Name) and c_.func.id == px.fi.name for c_ in q.calls(n_.ast))
 
-    for c in sites:
-        a = c.args[idx] if idx < len(c.args) else q.kwarg(c, ws_param[0])
+    for c, targs, _ in sites:
+        a = targs[idx] if idx < len(targs) else q.kwarg(c, ws_param[0])
         if a is not None and isinstance(a, ast.Name):
             # a local copy of the mode: it must have been (re)read from the reader since the mode could last change
             lv = a.id
@@ -988,6 +1023,68 @@ def _all_items(seq):
 
 
 # --------------------------------------------------------------------------------------------
+# R15 one node per literal-text fragment
+
+
+def rule_text_nodes(ck, px):
+    """Whitespace filtering and the '<pre>' test are applied per _Text node at generation time, so each run of literal
+    text between two directives must become its own node: appending a fragment to the text of an existing node merges
+    text across a directive (comment, autoescape, whitespace ...) and changes what is filtered."""
+    rid = "C19.text-nodes"
+    tinit = ck.func(T, "_Text.__init__")
+    tparams = [p for p in tinit.params() if p != "self"]
+    val_attr = None
+    for st in q.walk_body(tinit.node):
+        if isinstance(st, ast.Assign) and q.dotted(st.value) == tparams[0] and (q.dotted(st.targets[0]) or "").startswith("self."):
+            val_attr = q.dotted(st.targets[0]).split(".", 1)[1]
+    if val_attr is None:
+        raise AnalysisError("_Text.__init__ does not store its text")
+    sites = px.text_sites()
+    ck.floor(rid, len(sites), 3, "literal-text node constructions in _parse")
+    funcs = [(px.fi, None)] + [(h, idxs) for h, idxs in px.text_helpers().values()]
+    merges = {}
+    for f, idxs in funcs:
+        ck.use(f)
+        if idxs is None:
+            srcs = set()
+            for c, targs, _ in sites:
+                srcs |= q.names_in(targs[0]) if targs else set()
+            tainted = srcs
+        else:
+            tainted = tainted_names(f, [f.params()[idxs[0]]])
+        found = []
+        for st in q.walk_body(f.node):
+            tgt = None
+            if isinstance(st, ast.AugAssign):
+                tgt, rhs = st.target, st.value
+            elif isinstance(st, ast.Assign) and len(st.targets) == 1:
+                tgt, rhs = st.targets[0], st.value
+            if tgt is not None and isinstance(tgt, ast.Attribute) and tgt.attr == val_attr and q.dotted(tgt.value) != "self" and (q.names_in(rhs) & tainted):
+                found.append(st)
+        merges[f.qualname] = found
+        for st in found:
+            ck.ob(rid, f, st, False, "a literal-text fragment is stored into the text of an existing node (%s): text on both sides of a directive is then filtered as one string" % q.unparse(st.targets[0] if isinstance(st, ast.Assign) else st.target))
+    for c, targs, _ in sites:
+        owner = c.func.id if isinstance(c.func, ast.Name) and c.func.id in px.text_helpers() else None
+        fq = px.text_helpers()[owner][0].qualname if owner else px.fi.qualname
+        if not merges.get(fq):
+            ck.ob(rid, px.fi, c, True, "this text fragment becomes a node of its own (one _Text per fragment between directives)")
+    # and every such node is appended to the body being built (not dropped, not inserted elsewhere)
+    for f, idxs in funcs:
+        for x in q.calls(f.node):
+            if q.is_call(x, "_Text"):
+                pm = q.parent_map(f.node)
+                par = pm.get(x)
+                ok = isinstance(par, ast.Call) and isinstance(par.func, ast.Attribute) and par.func.attr == "append" and (q.dotted(par.func.value) or "").endswith(".chunks")
+                if not ok and isinstance(par, ast.Assign):
+                    nm = q.dotted(par.targets[0])
+                    ok = any(isinstance(y, ast.Call) and isinstance(y.func, ast.Attribute) and y.func.attr == "append" and (q.dotted(y.func.value) or "").endswith(".chunks") and y.args and q.dotted(y.args[0]) == nm for y in q.calls(f.node))
+                if not ok:
+                    raise AnalysisError("%s: what happens to the new _Text node is not understood" % f.qualname)
+                ck.ob(rid, f, x, True, "the new text node is appended to the chunk list")
+
+
+# --------------------------------------------------------------------------------------------
 # R14 scanner: delimiters, escapes, what text is consumed
 
 
@@ -1080,12 +1177,13 @@ def rule_scanner(ck, px):
         drops = [x for x in branch if isinstance(x.ast, ast.Expr) and q.is_call(x.ast.value, rd + ".consume") and len(x.ast.value.args) == 1 and q.is_const(x.ast.value.args[0], 1)]
         other_cons = [x for x in branch if x not in drops and any(q.is_call(cc, rd + ".consume") for cc in q.calls(x.ast))]
         ck.ob(rid, fi, et.ast, len(drops) == 1 and not other_cons, "an escaped opener consumes exactly the one '!' character and nothing else", construct="escape consumes")
-        texts = [cc for x in branch for cc in q.calls(x.ast) if q.is_call(cc, "_Text")]
-        ck.ob(rid, fi, et.ast, len(texts) == 1 and texts[0].args and q.dotted(texts[0].args[0]) == sbv, "an escaped opener is emitted as its two literal characters", construct="escape emits opener")
+        tsites = px.text_sites()
+        texts = [targs for x in branch for cc in q.calls(x.ast) for (c_, targs, _) in tsites if c_ is cc]
+        ck.ob(rid, fi, et.ast, len(texts) == 1 and texts[0] and q.dotted(texts[0][0]) == sbv, "an escaped opener is emitted as its two literal characters", construct="escape emits opener")
         ck.ob(rid, fi, et.ast, bool(branch) and isinstance(branch[-1].ast, ast.Continue), "and scanning resumes after it (the tag is not parsed)", construct="escape continues")
     # literal text: what is emitted as text is what the reader consumed (no trimming)
-    for c in [c for c in q.calls(fi.node) if q.is_call(c, "_Text")]:
-        a = c.args[0] if c.args else None
+    for c, targs, _ in px.text_sites():
+        a = targs[0] if targs else None
         src = a
         if isinstance(a, ast.Name):
             src = single_assignment(fi.node, a.id) or a
@@ -1441,6 +1539,7 @@ def run(ck):
     ck.rule("C19.statement-text", "operators that are Python keywords are emitted with their keyword (whole directive text); all other operators pass only their operand")
     ck.rule("C19.text-fidelity", "literal text carries the whitespace mode in force where it was read; _Text emits repr(utf8(filtered value)); filter_whitespace patterns match whitespace only, replace by one whitespace character, 'all' is the identity, 'single' keeps and 'oneline' removes newlines")
     ck.rule("C19.ws-runs", "the substitution pipeline of each whitespace mode, evaluated on every whitespace run up to length 4 over class representatives, does what the mode documents: all = identity; oneline = one space; single = exactly one newline for a run containing a newline, otherwise non-empty whitespace without adjacent blanks")
+    ck.rule("C19.text-nodes", "every literal-text fragment (text before a tag, escaped opener, rest of input) becomes its own _Text node appended to the chunk list; no fragment is added to the text of an existing node (filtering and the <pre> test are per node)")
     ck.rule("C19.scanner", "tags: each opener the scan loop stops at has a branch searching its mirror-image closer, a missing closer is an error, the body is consumed up to the closer and exactly the closer is skipped; an escaped opener ('!' after it) emits the two opener characters, drops the '!' and is not parsed; text nodes carry what consume() returned")
     ck.rule("C19.gen-structure", "emitted block structure: header before an indented suite, pass for empty suites, clause headers one level out after pass, generated functions open with a fresh buffer + append alias and end returning the joined buffer, one alias for all emitters, write_line indents with the current level")
     ck.rule("C19.indent-balanced", "_CodeWriter.indent(): __enter__ adds one level, __exit__ removes one level, nothing else writes _indent")
@@ -1456,6 +1555,7 @@ def run(ck):
     rule_recursion_scope(ck, px)
     rule_statement_text(ck, px)
     rule_text_fidelity(ck, px)
+    rule_text_nodes(ck, px)
     rule_scanner(ck, px)
     rule_gen_structure(ck, px)
     rule_indent_balanced(ck, px)
@@ -1547,6 +1647,25 @@ def _drop_method(name):
     return edit
 
 
+def _seed_coalesce(tree):
+    helper = ast.parse("def _append_text(body, value, line, whitespace):\n    last = body.chunks[-1] if body.chunks else None\n    if isinstance(last, _Text) and last.whitespace == whitespace:\n        last.value += value\n    else:\n        body.chunks.append(_Text(value, line, whitespace))\n").body[0]
+    n = 0
+    for i, st in enumerate(tree.body):
+        if isinstance(st, ast.FunctionDef) and st.name == "_parse":
+            class R(ast.NodeTransformer):
+                def visit_Call(self, node):
+                    self.generic_visit(node)
+                    nonlocal n
+                    if isinstance(node.func, ast.Attribute) and node.func.attr == "append" and _u(node.func.value) == "body.chunks" and node.args and isinstance(node.args[0], ast.Call) and _u(node.args[0].func) == "_Text":
+                        n += 1
+                        return ast.Call(func=ast.Name(id="_append_text", ctx=ast.Load()), args=[ast.Name(id="body", ctx=ast.Load())] + node.args[0].args, keywords=[])
+                    return node
+            R().visit(st)
+            tree.body.insert(i, helper)
+            break
+    return n > 0
+
+
 MUTANTS = [
     ("empty expression raises a plain Exception", _in("_parse", replace_stmt(lambda st: _is_rpe_stmt(st, "Empty expression"), lambda st: [parse_stmt("raise Exception('Empty expression')")])), ("C19.raise-class", "C19.error-line")),
     ("missing loader reported with ValueError", _in("Template._get_ancestors", replace_expr(lambda n: isinstance(n, ast.Name) and n.id == "ParseError", lambda n: ast.Name(id="ValueError", ctx=ast.Load()))), "C19.raise-class"),
@@ -1577,6 +1696,8 @@ MUTANTS = [
     ("'single' turns newline runs into a space", _in("filter_whitespace", replace_expr(lambda n: q.is_const(n, "\n"), lambda n: ast.Constant(value=" "))), "C19.ws-runs"),
     ("'oneline' also eats the character after the run", _in("filter_whitespace", replace_expr(lambda n: q.is_const(n, "(\\s+)"), lambda n: ast.Constant(value="(\\s+.?)"))), "C19.text-fidelity"),
     ("mode 'all' strips the text", _in("filter_whitespace", replace_stmt(lambda st: isinstance(st, ast.Return) and _u(st) == "return text", lambda st: [parse_stmt("return text.strip()")])), "C19.text-fidelity"),
+    ("seeded C19-adv5: text fragments coalesced into the previous _Text node", _in(None, lambda tree: _seed_coalesce(tree)), "C19.text-nodes"),
+    ("text before a tag is appended to the previous text node's value", _in("_parse", replace_stmt(lambda st: isinstance(st, ast.Expr) and _u(st).startswith("body.chunks.append(_Text(cons"), lambda st: [parse_stmt("if body.chunks and isinstance(body.chunks[-1], _Text):\n    body.chunks[-1].value += cons\nelse:\n    body.chunks.append(_Text(cons, reader.line, reader.whitespace))")])), "C19.text-nodes"),
     ("escaped opener keeps the '!'", _in("_parse", remove_stmts(lambda st: isinstance(st, ast.Expr) and _u(st) == "reader.consume(1)")), "C19.scanner"),
     ("escaped opener emits only the first brace", _in("_parse", replace_expr(lambda n: isinstance(n, ast.Call) and _u(n).startswith("_Text(start_brace"), lambda n: parse_expr("_Text(start_brace[0], line, reader.whitespace)"))), "C19.scanner"),
     ("comment closer skipped with one character", _in("_parse", lambda fn: (lambda ifs: (replace_expr(lambda n: isinstance(n, ast.Call) and _u(n) == "reader.consume(2)", lambda n: parse_expr("reader.consume(1)"))(ifs[0]) if ifs else False))([n for n in ast.walk(fn) if isinstance(n, ast.If) and _u(n.test) == "start_brace == '{#'"])), "C19.scanner"),
